@@ -537,6 +537,23 @@ def cont_check(dimkind, case, rec):
             tol = 1e-10 + (1e-4 if merged else 0.0)
             rec.close(f"{step}:member-volumes", float(np.abs(vol - ref).max()) / float(np.abs(ref).max()) if vol.shape == ref.shape else float("inf"), tol, {"member": i})
             rec.close(f"{step}:orientation", max(0.0, float(-vol.min())), 0.0)
+        # members are meshes of their own: their bookkeeping describes the shared point array, and meshes taken out of
+        # the container can be concatenated again (same cell type) without losing or moving any cell
+        for i, m in enumerate(cont.meshes):
+            rec.require(f"{step}:member-npoints=len(points)", int(m.npoints) == len(np.asarray(m.points)), {"member": i, "npoints": int(m.npoints), "len": len(np.asarray(m.points))})
+        if len(set(types)) == 1 and len(cont.meshes) >= 2 and not any(np.asarray(m.cells).size and np.asarray(m.cells).max() >= len(P) for m in cont.meshes):
+            cat = fem.mesh.concatenate(list(cont.meshes))
+            C = np.asarray(cat.cells)
+            if C.size and C.max() >= len(cat.points):
+                rec.require(f"{step}:concatenated-members-index-their-points", False, [int(C.max()), len(cat.points)])
+            else:
+                vol = volumes(np.asarray(cat.points, float), C, types[0])
+                ref = np.concatenate(model)
+                rec.close(f"{step}:concatenated-members-volumes", float(np.abs(vol - ref).max()) / float(np.abs(ref).max()) if vol.shape == ref.shape else float("inf"),
+                          1e-10 + (1e-4 if merged else 0.0))
+                cent = np.asarray(cat.points, float)[C].mean(1)
+                cref = np.concatenate([np.asarray(cont.points, float)[np.asarray(m.cells)].mean(1) for m in cont.meshes])
+                rec.close(f"{step}:concatenated-members-cell-centres", float(np.abs(cent - cref).max()) if cent.shape == cref.shape else float("inf"), 1e-12)
 
     verify("create")
     for o in case["ops"]:
